@@ -416,7 +416,12 @@ class SQ(SR):
                 rhs = a.den.e
             else:
                 rhs = zexpr(b * a.den)
-            return a._link(SB(z3.If(a.den.e > 0, f(a.num.e, rhs), f(rhs, a.num.e))), f, zexpr(b))
+            # numpy semantics for a zero denominator: num/0 = +-inf (num != 0) or nan (num == 0)
+            pinf = z3.BoolVal(op in ("ge", "gt", "ne"))
+            ninf = z3.BoolVal(op in ("le", "lt", "ne"))
+            nanv = z3.BoolVal(op == "ne")
+            zero = z3.If(a.num.e > 0, pinf, z3.If(a.num.e < 0, ninf, nanv))
+            return a._link(SB(z3.If(a.den.e > 0, f(a.num.e, rhs), z3.If(a.den.e < 0, f(rhs, a.num.e), zero))), f, zexpr(b))
         return NotImplemented
 
     def _link(a, cond, f, other):
@@ -563,12 +568,123 @@ class SI:
         return "<SI>"
 
 
+class SF:
+    """IEEE-754 scalar (z3 floating-point term, binary64 or binary32, round-to-nearest-even):
+    used by the bit-exact kernels (clipping, casts).  Mixed-width operations promote to
+    binary64 exactly, as numpy does."""
+
+    __slots__ = ("e",)
+
+    def __init__(self, e):
+        self.e = e
+
+    @property
+    def bits(self):
+        return self.e.sort().ebits() + self.e.sort().sbits()
+
+    def to(self, bits):
+        if self.bits == bits:
+            return self
+        return SF(z3.fpToFP(z3.RNE(), self.e, z3.Float32() if bits == 32 else z3.Float64()))
+
+    @staticmethod
+    def _pair(a, b):
+        if isinstance(b, SF):
+            w = max(a.bits, b.bits)
+            return a.to(w).e, b.to(w).e
+        if isinstance(b, bool) or not isinstance(b, (int, float)):
+            return None
+        return a.e, z3.FPVal(float(b), a.e.sort())
+
+    def _bin(a, b, f, rev=False):
+        p = SF._pair(a, b)
+        if p is None:
+            return NotImplemented
+        x, y = (p[1], p[0]) if rev else p
+        return SF(f(z3.RNE(), x, y))
+
+    def __add__(a, b):
+        return a._bin(b, z3.fpAdd)
+
+    def __radd__(a, b):
+        return a._bin(b, z3.fpAdd, True)
+
+    def __sub__(a, b):
+        return a._bin(b, z3.fpSub)
+
+    def __rsub__(a, b):
+        return a._bin(b, z3.fpSub, True)
+
+    def __mul__(a, b):
+        return a._bin(b, z3.fpMul)
+
+    def __rmul__(a, b):
+        return a._bin(b, z3.fpMul, True)
+
+    def __truediv__(a, b):
+        return a._bin(b, z3.fpDiv)
+
+    def __neg__(a):
+        return SF(z3.fpNeg(a.e))
+
+    def __abs__(a):
+        return SF(z3.fpAbs(a.e))
+
+    def _cmp(a, b, f):
+        p = SF._pair(a, b)
+        if p is None:
+            return NotImplemented
+        return SB(f(p[0], p[1]))
+
+    def __lt__(a, b):
+        return a._cmp(b, z3.fpLT)
+
+    def __le__(a, b):
+        return a._cmp(b, z3.fpLEQ)
+
+    def __gt__(a, b):
+        return a._cmp(b, z3.fpGT)
+
+    def __ge__(a, b):
+        return a._cmp(b, z3.fpGEQ)
+
+    def __eq__(a, b):
+        return a._cmp(b, z3.fpEQ)
+
+    def __ne__(a, b):
+        return a._cmp(b, lambda x, y: z3.Not(z3.fpEQ(x, y)))
+
+    __hash__ = None
+
+    def isnan(self):
+        return SB(z3.fpIsNaN(self.e))
+
+    def isinf(self):
+        return SB(z3.fpIsInf(self.e))
+
+    def __float__(self):
+        raise HarnessError("float() of a symbolic IEEE value")
+
+    def __repr__(self):
+        return "<SF>"
+
+    def __format__(self, spec):
+        return "<SF>"
+
+
 def ite(c, a, b):
     """value-level if-then-else that never forks"""
     if not isinstance(c, SB):
         return a if c else b
     if a is b:
         return a
+    if isinstance(a, SF) or isinstance(b, SF):
+        if not isinstance(a, SF):
+            a = SF(z3.FPVal(float(a), b.e.sort()))
+        if not isinstance(b, SF):
+            b = SF(z3.FPVal(float(b), a.e.sort()))
+        w = max(a.bits, b.bits)
+        return SF(z3.If(c.e, a.to(w).e, b.to(w).e))
     if isinstance(a, (SB, bool)) and isinstance(b, (SB, bool)):
         return SB(z3.If(c.e, _be(a), _be(b)))
     if isinstance(a, (SI, int)) and isinstance(b, (SI, int)) and not isinstance(a, bool) and not isinstance(b, bool):
@@ -607,7 +723,7 @@ def sabs(a):
 
 
 def is_sym(v):
-    return isinstance(v, (SR, SI, SB))
+    return isinstance(v, (SR, SI, SB, SF))
 
 
 def zexpr(v):
@@ -638,6 +754,17 @@ def _num_to_float(v):
         return float(fr), "~" + str(float(fr))
     if z3.is_int_value(v):
         return int(v.as_long()), str(v.as_long())
+    if z3.is_fp_value(v):
+        if v.isNaN():
+            return float("nan"), "nan"
+        if v.isInf():
+            return (float("-inf") if v.isNegative() else float("inf")), "inf"
+        r = z3.simplify(z3.fpToReal(v))
+        fr = fractions.Fraction(r.numerator_as_long(), r.denominator_as_long())
+        f = float(fr)
+        if f == 0.0 and v.isNegative():
+            f = -0.0
+        return f, f.hex()
     if z3.is_true(v):
         return True, "true"
     if z3.is_false(v):
@@ -671,6 +798,7 @@ class Engine:
         self.path_hooks = []
         self.witnesses = []
         self.witness_limit = 2
+        self._refine_unknown = {}
 
     # -- per-path state
     def _reset_path(self):
@@ -713,6 +841,11 @@ class Engine:
         v = z3.Bool(name)
         self.inputs[name] = v
         return SB(v)
+
+    def fp(self, name, bits=64):
+        v = z3.FP(name, z3.Float64() if bits == 64 else z3.Float32())
+        self.inputs[name] = v
+        return SF(v)
 
     def fresh_real(self, prefix, register=True):
         n = self.fresh_name(prefix)
@@ -914,8 +1047,8 @@ class Engine:
             self.samples.append(dict(obligation=oid, shape=self.tags.get("shape"), path=len(self.trace), formula=str(neg)[:400], info=info))
         r = self.check(neg)
         model = self.model() if r == z3.sat else None
-        if r == z3.sat and self.mulmode == "uf":
-            r, model = self._refine(neg, model)
+        if r == z3.sat and self.mulmode == "uf" and self._refine_unknown.get(oid, 0) < 2:
+            r, model = self._refine(neg, model, oid)
         if r == z3.unsat:
             o["proved"] += 1
             return True
@@ -930,7 +1063,7 @@ class Engine:
         self.stats.inc("unknown")
         return None
 
-    def _refine(self, neg, model):
+    def _refine(self, neg, model, oid=None):
         """a counterexample found with uninterpreted products/quotients is re-derived with the
         logged MUL/DIV applications constrained to the true products (fresh solver, NRA):
         sat -> a model the real arithmetic can reproduce; unsat -> the counterexample was an
@@ -946,7 +1079,7 @@ class Engine:
             return z3.sat, model
         t0 = time.time()
         f = z3.Solver()
-        f.set("timeout", 20000)
+        f.set("timeout", 15000)
         f.add(*self.solver.assertions())
         f.add(neg)
         f.add(*links)
@@ -959,6 +1092,7 @@ class Engine:
         if r == z3.unsat:
             self.stats.inc("refuted_by_refinement")
             return z3.unsat, None
+        self._refine_unknown[oid] = self._refine_unknown.get(oid, 0) + 1
         return z3.sat, model
 
     def more_models(self, oid_neg, k=3):
@@ -1022,7 +1156,7 @@ class Engine:
         cons = []
         terms = list(self.inputs.values()) + [r for (_, _, r) in self.uflog][:40]
         for v in terms:
-            if z3.is_real(v):
+            if z3.is_real(v) and not z3.is_fp(v):
                 cons += [z3.IsInt(v * 16), v >= -64, v <= 64]
         old = self.nra_timeout_ms
         self.solver.set("timeout", 3000)
@@ -1127,6 +1261,14 @@ class ConcreteEngine:
 
     def bool(self, name):
         return builtins.bool(self._get(name, False))
+
+    def fp(self, name, bits=64):
+        v = float(self._get(name))
+        if bits == 32:
+            import numpy
+
+            return numpy.float32(v)
+        return v
 
     def fresh_real(self, prefix, register=True):
         return float(self._get(self.fresh_name(prefix)))
